@@ -87,8 +87,11 @@ def _cons_spec(rng, solver, df, pen, seed, coords):
     knobs = dict(tol=float(rng.choice([1e-4, 1e-7])), p0=int(rng.choice([1, 2, 3, 10])))
     if solver == "MultiTaskBCD":
         knobs["use_acc"] = bool(rng.integers(0, 2))
+    mut = None
+    if rng.random() < 0.35 and p > 3:
+        mut = str(rng.choice(["zero_col@first", "zero_col@middle", "zero_col@last", "zero_cols_many"]))   # empty CSC columns
     return dict(check="C05", seed=seed, coords=coords, solver=solver, datafit=df, penalty=pen, storage=storage,
-                fit_intercept=icpt, strategy=strategy, n=n, p=p,
+                fit_intercept=icpt, strategy=strategy, n=n, p=p, mutate_X=mut,
                 xkind=str(rng.choice(["gauss", "ar", "shifted"])), rho=float(rng.choice([0.5, 0.95])),
                 alpha_frac=float(rng.choice([0.02, 0.1, 0.4])),
                 positive=bool(rng.integers(0, 2)) if pen in K.POSFLAG + ["WeightedGroupL2"] else False,
@@ -164,6 +167,17 @@ def _cons_shard(spec, emit):
                 steps.append((frac, f.get("stop"), f.get("cert")))
                 if f.get("converged"):
                     counts["converged_steps"] += 1
+                elif f.get("finite_w"):
+                    # "the same optimality certificate as a cold start": if the cold start reaches the tolerance
+                    # within this (generous) budget, the warm start must reach it too
+                    o3 = case2.solve(None, None, **{b_it: 60, **({b_ep: 2000} if b_ep == "max_epochs" else ({b_ep: 100} if b_ep else {}))})
+                    counts["cold_start_comparisons"] = counts.get("cold_start_comparisons", 0) + 1
+                    if o3["exc"] is None and o3["stop"] <= case2.tol():
+                        viols.append(dict(mechanism="warm-start-fails-where-cold-start-converges", solver=solver, datafit=df,
+                                          penalty=pen, storage=case.storage, fit_intercept=case.fit_intercept,
+                                          strategy=case.strategy, step=step, warm_stop=f.get("stop"), cold_stop=o3["stop"],
+                                          detail="chain step %d: warm start stops at %.3g > tol=%g after the budget in which a "
+                                                 "cold start reaches %.3g" % (step, f.get("stop"), case2.tol(), o3["stop"])))
                 if O.cert_violated(f, case2.tol()):
                     viols.append(dict(mechanism="warm-started-step-fails-certificate", solver=solver, datafit=df,
                                       penalty=pen, storage=case.storage, fit_intercept=case.fit_intercept,
@@ -435,6 +449,12 @@ def _refit_shard(spec, emit):
                 # "refitting a warm_start estimator after changing its hyper-parameters"
                 est.set_params(**{k: v for k, v in new.get_params(deep=False).items()
                                   if k in ("alpha", "l1_ratio", "weights", "gamma", "C")}) if est_name != "GLE" else None
+                if est_name in ("Lasso", "ElasticNet", "WeightedLasso", "MCPRegression", "GroupLasso", "SparseLogisticRegression") \
+                        and rng.random() < 0.4:
+                    # also toggle structural hyper-parameters between fits
+                    icpt = not icpt
+                    est.set_params(fit_intercept=icpt)
+                    refspec = (refspec[0], refspec[1], icpt)
                 if est_name == "GLE":
                     est.penalty = L1(a)
             try:
